@@ -328,6 +328,12 @@ impl SDJWTVerifier {
                         .ok_or(Error::InvalidArrayDisclosureObject(
                             value_for_digest.to_string(),
                         ))?;
+                if disclosure.len() != 3 {
+                    return Err(Error::InvalidDisclosure(format!(
+                        "Disclosure of an object property must be [salt, name, value]: {}",
+                        value_for_digest
+                    )));
+                }
                 let key = disclosure[1]
                     .as_str()
                     .ok_or(Error::ConversionError("str".to_string()))?
@@ -368,6 +374,12 @@ impl SDJWTVerifier {
                         value_for_digest.to_string(),
                     ))?;
 
+            if disclosure.len() != 2 {
+                return Err(Error::InvalidDisclosure(format!(
+                    "Disclosure of an array element must be [salt, value]: {}",
+                    value_for_digest
+                )));
+            }
             let value = disclosure[1].clone();
             let unpacked_value = self.unpack_disclosed_claims(&value)?;
             return Ok(Some(unpacked_value));
